@@ -22,8 +22,10 @@ type OpEntry struct {
 }
 
 type OpOcc struct {
-	Src string `json:"src"`
-	Fn  string `json:"fn"`
+	Src      string `json:"src"`
+	Fn       string `json:"fn"`
+	Neg      bool   `json:"neg"`      // the occurrence stands under a negation
+	IllTyped bool   `json:"illtyped"` // negation of a non-boolean result: no claim
 }
 
 // OpExpr: one occurrence, or several side by side in an array literal.
@@ -71,11 +73,11 @@ func tableOptions(es []OpEntry, grouped bool) []expr.Option {
 
 func opOperands(e *Env, src string) []interface{} {
 	switch src {
-	case "I + J", "I == J", "I - J":
+	case "I + J", "I == J", "I - J", "not (I == J)", "!(I == J)":
 		return []interface{}{e.I, e.J}
 	case "F + G":
 		return []interface{}{e.F, e.G}
-	case "S + T", "S == T":
+	case "S + T", "S == T", "not (S == T)":
 		return []interface{}{e.S, e.T}
 	case "I + F":
 		return []interface{}{e.I, e.F}
@@ -94,6 +96,13 @@ func (r *replayer) opTableCase(c OpTableCase) {
 			}
 			for _, x := range c.Exprs {
 				src := x.Src()
+				skip := false
+				for _, o := range x.Occs {
+					skip = skip || o.IllTyped
+				}
+				if skip && c.Valid {
+					continue
+				}
 				prog, cg := CompileMode(src, m, ops...)
 				r.sum.Executions++
 				if !c.Valid {
@@ -149,7 +158,11 @@ func (r *replayer) opTableCase(c OpTableCase) {
 						in[i] = reflect.ValueOf(a)
 					}
 					lg.reset()
-					wantVals = append(wantVals, Abs(fv.Call(in)[0].Interface()))
+					res := fv.Call(in)[0].Interface()
+					if o.Neg {
+						res = !res.(bool)
+					}
+					wantVals = append(wantVals, Abs(res))
 					wantCalls = append(wantCalls, CallRec{Fn: o.Fn, Args: []Val{Abs(args[0]), Abs(args[1])}})
 				}
 				if bad {
@@ -183,7 +196,6 @@ func (r *replayer) opTableCase(c OpTableCase) {
 	}
 	r.sample(c)
 }
-
 
 // opTableDeterminism: C09 over operator tables.  The same source compiled six times with the same (valid) table,
 // the options built anew each time, yields the same program byte for byte and constant for constant.
